@@ -43,6 +43,11 @@ def main():
             out["patch_error"] = o[-500:]
             print(json.dumps(out, indent=1))
             return 2
+        if not run_tests:
+            try:
+                out["tests"] = json.load(open(src + "/meta.json")).get("verification", {}).get("tests")
+            except Exception:
+                pass
         if run_tests:
             rc, o = sh("/venv/bin/python -m pytest -q -p no:cacheprovider --timeout=900 -n 8 2>&1 | tail -3", cwd=scratch, env=env)
             out["tests"] = o.strip().splitlines()[-1] if o.strip() else ""
@@ -65,8 +70,9 @@ def main():
     dst = "/verif/seeded/" + sid
     if confirmed:
         os.makedirs(dst, exist_ok=True)
-        shutil.copy(src + "/patch.diff", dst + "/patch.diff")
-        shutil.copy(src + "/demo.py", dst + "/demo.py")
+        if os.path.realpath(src) != os.path.realpath(dst):
+            shutil.copy(src + "/patch.diff", dst + "/patch.diff")
+            shutil.copy(src + "/demo.py", dst + "/demo.py")
         meta = {}
         try:
             meta = json.load(open(src + "/meta.json"))
